@@ -292,7 +292,14 @@ impl Prop for C05 {
         if total.len() <= super::c18::CAP_PAYLOAD
             && !(decode_final && super::c18::decode_capacity_exceeded(&total, final_fill).is_some())
         {
+            if let Some(st) = st.as_deref_mut() {
+                st.probe("no-alloc build judged too (heal group within its capacities)");
+            }
             return judge_build(sc, Build::None, &mut None);
+        }
+        // (how much is left to C18 is counted, so that the evidence shows the exempted region)
+        if let Some(st) = st.as_deref_mut() {
+            st.probe("no-alloc build not judged: heal group beyond its capacities (C18's ground)");
         }
         None
     }
